@@ -152,7 +152,10 @@ pub fn r2_load(names: &[&str]) -> R2 {
     for (i, name) in names.iter().enumerate() {
         let mut l = layout(name);
         if l == Layout::BlockOrDontCare {
-            if block.is_some() {
+            // an extended instruction (and the like): a block instruction inside a block; outside
+            // the claim only at *module scope*; inside an open function but outside a block it is
+            // not module-level by any reading, hence detached
+            if block.is_some() || func.is_some() {
                 l = Layout::Block;
             } else {
                 return R2::DontCare { at: i };
